@@ -473,7 +473,19 @@ def _record_types(S, fi) -> dict:
 def _record_args(call: ast.Call, rec):
     """the field values of a constructor call in declaration order (None when a field stays open or the call is not plain)"""
     flds, dfl, _ = rec
-    if any(isinstance(a, ast.Starred) for a in call.args) or any(k.arg is None for k in call.keywords) or len(call.args) > len(flds):
+    stars = [a for a in call.args if isinstance(a, ast.Starred)]
+    if len(stars) == 1 and not call.keywords and not dfl and len(call.args) - 1 < len(flds) and _plain_value(stars[0].value):
+        # R(a, *E) with every field required: the call only succeeds when E supplies exactly the remaining fields, E[0], E[1], ...
+        k_ = len(flds) - (len(call.args) - 1)
+        out = []
+        for a in call.args:
+            if a is stars[0]:
+                out += [ast.copy_location(ast.Subscript(value=copy.deepcopy(a.value), slice=ast.copy_location(ast.Constant(value=i), a), ctx=ast.Load()), a)
+                        for i in range(k_)]
+            else:
+                out.append(a)
+        return out
+    if stars or any(k.arg is None for k in call.keywords) or len(call.args) > len(flds):
         return None
     bind = dict(zip(flds, call.args))
     for k in call.keywords:
@@ -483,6 +495,11 @@ def _record_args(call: ast.Call, rec):
     for f_, d in dfl.items():
         bind.setdefault(f_, d)
     return [bind[f_] for f_ in flds] if all(f_ in bind for f_ in flds) else None
+
+
+def _plain_value(e) -> bool:
+    """an expression that may be written twice: names, attributes, subscripts, literals, arithmetic (no calls, no walrus)"""
+    return not any(isinstance(x, (ast.Call, ast.NamedExpr, ast.Await, ast.Yield, ast.YieldFrom, ast.Lambda, ast.Starred)) for x in ast.walk(e))
 
 
 def _scope_info(node):
@@ -527,9 +544,11 @@ def _plain_stores(own, params) -> dict:
             nm = x.targets[0].id
             if out.get(nm, []) is not None:
                 out.setdefault(nm, []).append(x)
+    # (a bare declaration `N: T` binds nothing)
+    declared = {id(x.target) for x in own if isinstance(x, ast.AnnAssign) and x.value is None and isinstance(x.target, ast.Name)}
     for x in own:
         if isinstance(x, ast.Name) and isinstance(x.ctx, (ast.Store, ast.Del)) and x.id in out and out[x.id] is not None \
-                and not any(st.targets[0] is x for st in out[x.id]):
+                and not any(st.targets[0] is x for st in out[x.id]) and id(x) not in declared:
             out[x.id] = None
         elif isinstance(x, (ast.FunctionDef, ast.AsyncFunctionDef, ast.ClassDef)) and x.name in out:
             out[x.name] = None
@@ -824,7 +843,7 @@ def r03_2(chk: Check):
         short = outer.split('.')[-1]
         v, xi, T = _state_symbols(ex, fi)
         want = (xi - v) / (1 - xi * v) * xi - th("csqHighT")(T)
-        val = ex.single(fi)
+        val = ex.single(with_closure_temporaries(S, fi))          # (a closure may read temporaries of the routine)
         ok, how = is_zero(val - want, chk.seed)
         chk.ob("R03.2", fi.where(), f"{short}: front condition is mu(xi, v) xi - csqHighT(T)", ok, f"{val}; {how}", key=f"front|{short}", how=how)
         fo = S.func(outer)
@@ -845,7 +864,7 @@ def r03_2(chk: Check):
     ft = evt.fi
     chk.touch(ft.name)
     ext = hydro_extractor(S)
-    val = ext.single(ft)
+    val = ext.single(with_closure_temporaries(S, ft))
     vt, xit, _ = _state_symbols(ext, ft)
     wantt = (xit * (xit - vt) / (1 - xit * vt) - ext.sym("self.cs2"))
     ok, how = is_zero(sp.cancel(val / vt) - wantt, chk.seed)
@@ -899,6 +918,8 @@ def r03_3(chk: Check):
                 role[nm] = "xi"
             elif k_ is None and eqx(v, f"{SOL}.y[1, -1]", cx):
                 role[nm] = "T"
+            elif k_ is None and isinstance(v, ast.Subscript) and (i_ := _lit_index(v.slice)) in (0, 1) and eqx(v.value, f"{SOL}.y[:, -1]", cx):
+                role[nm] = ("xi", "T")[i_]          # (the end point, then its component)
         changed = True
         while changed:
             changed = False
